@@ -52,21 +52,30 @@ Definition apply_kernel (k : kernel) (e : expr) : expr :=
   | KInvert => invert_file invert_cfg_v e
   | KGenerator => generator_file generator_cfg_v e
   | KSetLit => rw_set_literal e
-  | KHasattr => rw_hasattr e
+  | KHasattr => rw_hasattr hasattr_cfg_v e
+  | KEmptySeq => empty_seq_file empty_seq_cfg_v false e
+  | KEmptySeqTest => empty_seq_file empty_seq_cfg_v true e
+  | KIdentity => rw_identity e
   end.
 
 Definition output_of (k : kernel) (e : expr) : expr := apply_kernel k e.
-Definition lost_parens (k : kernel) (e : expr) : bool := is_allpar e && negb (paren_safe (apply_kernel k e)).
+Definition lost_parens (k : kernel) (e : expr) : bool :=
+  expr_eqb (norm e) (allpar e) && negb (expr_eqb (norm (apply_kernel k e)) (allpar (apply_kernel k e))).
 
 Definition kernel_guard (k : kernel) (rho : env) (e : expr) : bool :=
-  paren_safe e && paren_safe (apply_kernel k e) &&
+  (* the premises of the theorems: both texts parse back to the trees that were built, the model defines the original *)
+  expr_eqb (norm e) (allpar e) && expr_eqb (norm (apply_kernel k e)) (allpar (apply_kernel k e)) &&
+  in_model (eval rho (norm e)) &&
   match k with
   | KCombineSW => combine_guard combine_cfg_v KStartsEnds rho e
   | KCombineInst => combine_guard combine_cfg_v KInstSub rho e
   | KInvert => table_ok (iv_table invert_cfg_v) && invert_guard invert_cfg_v rho e
   | KGenerator => generator_guard generator_cfg_v rho e
   | KSetLit => true
-  | KHasattr => hasattr_guard rho e
+  | KHasattr => hasattr_guard hasattr_cfg_v rho e
+  | KEmptySeq => empty_seq_guard empty_seq_cfg_v false rho e
+  | KEmptySeqTest => empty_seq_guard empty_seq_cfg_v true rho e
+  | KIdentity => identity_guard rho e
   end.
 Definition nodes_classes (f : expr -> expr) (cls : env -> expr -> list N) (rho : env) (e : expr) : list N :=
   flat_map (fun rn => cls (fst rn) (snd rn)) (visit f rho e).
@@ -82,7 +91,12 @@ Definition finding_classes (k : kernel) (rho : env) (e : expr) : list N :=
   | KGenerator => if generator_crashes generator_cfg_v e then []
                   else flat_map generator_site_classes (gen_sites generator_cfg_v rho e)
   | KSetLit => []
-  | KHasattr => nodes_classes hasattr_step hasattr_node_classes rho e
+  | KHasattr => nodes_classes (hasattr_step hasattr_cfg_v) (hasattr_node_classes hasattr_cfg_v) rho e
+  | KEmptySeq => if empty_seq_crashes false e then [] else
+                 empty_seq_classes empty_seq_cfg_v false rho e ++ (if lost_parens k e then [kf_empty_seq_lost_parens] else [])
+  | KEmptySeqTest => if empty_seq_crashes true e then [] else
+                 empty_seq_classes empty_seq_cfg_v true rho e ++ (if lost_parens k e then [kf_empty_seq_lost_parens] else [])
+  | KIdentity => identity_classes rho e
   end.
 
 Record kcase := {
@@ -101,8 +115,10 @@ Definition strip_parens (s : str) : str := List.filter (fun c => negb (N.eqb c 4
 (** the harness printer is Coq's [pp] *)
 Definition pp_ok (c : kcase) : bool := str_eqb (pp (k_expr c)) (k_text c).
 (** evaluator vs CPython (skipped where the model declines) *)
-Definition orig_result (c : kcase) : result := eval (k_env c) (norm (k_expr c)).
-Definition after_result (c : kcase) : result := eval (k_env c) (norm (apply_kernel (k_kernel c) (k_expr c))).
+(** what the program around the expression lets one observe: its value, or only its truth value (test of an `if`) *)
+Definition observe (k : kernel) (r : result) : result := match k with KEmptySeqTest => test_obs r | _ => r end.
+Definition orig_result (c : kcase) : result := observe (k_kernel c) (eval (k_env c) (norm (k_expr c))).
+Definition after_result (c : kcase) : result := observe (k_kernel c) (eval (k_env c) (norm (apply_kernel (k_kernel c) (k_expr c)))).
 Definition eval_defined (c : kcase) : bool := in_model (orig_result c).
 Definition eval_ok (c : kcase) : bool :=
   negb (in_model (orig_result c)) || str_eqb (show_result (orig_result c)) (k_obs c).
